@@ -74,6 +74,12 @@ MUTANTS = [
      "            futures = [\n                executor.submit(chunk_unique, labels, slicer, nlabels)\n",
      "            shared = np.empty((nlabels + 1,), dtype=bool)  # allocate the scratch buffer once\n            futures = [\n                executor.submit(chunk_unique, labels, slicer, nlabels, shared)\n",
      ["C09"], "planner thread-pool jobs share one scratch buffer (a data race only an interleaving inside the jobs exposes)"),
+    ("m24", "flox/core.py", "        dtype=agg.dtype,\n        fill_value=agg.identity,\n", "        dtype=inp.array.dtype,\n        fill_value=agg.identity,\n", ["C10"],
+     "scan block totals accumulated in the input width again (the defect fixed in a13d81f)"),
+    ("m25", "flox/core.py", "    if len(present_labels) == 0:\n", "    if False:\n", ["C19"],
+     "planner prefers blockwise when no label is present (the defect fixed in f637c4b)"),
+    ("m26", "flox/core.py", "        numblocks = (array if is_duck_dask_array(array) else by_).numblocks\n", "        numblocks = array.numblocks\n", ["C19"],
+     "blockwise guards read numblocks of a NumPy array (the defect fixed in 0b6c46b)"),
     ("m20", "flox/core.py", '            groups_in_block = tuple(\n                _unique(by_input[slc]) if sort else pd.unique(by_input[slc].reshape(-1)) for slc in slices\n            )\n',
      '            groups_in_block = tuple(_unique(by_input[slc]) for slc in slices)\n', ["C16", "C05"],
      "blockwise announces sorted labels for sort=False (the defect fixed in e35fe4d)"),
